@@ -2,10 +2,12 @@ module verif/harness
 
 go 1.25.0
 
-require github.com/yorkie-team/yorkie v0.0.0
+require (
+	connectrpc.com/connect v1.19.1
+	github.com/yorkie-team/yorkie v0.0.0
+)
 
 require (
-	connectrpc.com/connect v1.19.1 // indirect
 	connectrpc.com/grpchealth v1.4.0 // indirect
 	filippo.io/edwards25519 v1.1.0 // indirect
 	github.com/beorn7/perks v1.0.1 // indirect
